@@ -15,7 +15,8 @@ EDGE_RULE = ("exhaustive: breadth-first exploration of the implementation's abst
              "distinct_nontrivial = explored (state, operation) pairs + random histories. Beyond these: histories that grow past the "
              "list-growth thresholds, hub histories (a node of degree 20-150 with two-way neighbours, parallel edges, self-loops, removals from the "
              "middle of its lists, isolate), the extremes of the value types, and the same histories on the w* flavours (a non-Copy, heap-owning key "
-             "type whose Hash has two values) and the z* flavours (zero-sized node and edge values).")
+             "type whose Hash has two values) and the z* flavours (zero-sized node and edge values). C03 also runs histories with two live node objects of one "
+             "key under an identity-based connect contract (not modelled: nodes are keys in the model).")
 
 NOT_YET = {}
 
@@ -106,7 +107,9 @@ CONT_RULE = ("enumerated small inputs (all digraphs on <=3/4 nodes for scc; all 
              "one graph/document/history; distinct_nontrivial = number of cases. Also: scc across graph changes on one container and on "
              "containers of 1100-1700 nodes; serialisation after container histories and of documents with 257-1030 edge records; raw JSON and "
              "CBOR bytes (every single-edit class) compared exactly with the byte-level models; deserialize_in_place into populated graphs; long "
-             "runs of one source; documents of the container with text keys (Graph<String, i64, u32>: empty, long, non-ASCII keys; judged by the "
+             "runs of one source; scc histories in which members are isolated, removed and brought back; serialisation after edge histories "
+             "(removals, edges re-made from the other end), of containers that hold only what is reachable from one node, either format first, and "
+             "round trips over a key type whose Display text and hashes collide (judged by the statement alone); documents of the container with text keys (Graph<String, i64, u32>: empty, long, non-ASCII keys; judged by the "
              "statement alone, not modelled); two containers sharing nodes, one of them dropped; containers as sole owners of connected nodes; "
              "the w* and z* flavours.")
 _CONT = {
@@ -155,7 +158,7 @@ PROPS["C17"] = {"theorems": [("GdslModel.Props.C17", "G.Conc." + t) for t in ["d
 
 PROPS["C15"] = {"theorems": [("GdslModel.Props.C15", "G.Sync." + t) for t in ["di_single_refines", "un_single_refines", "di_run_eq_plain", "un_run_eq_plain", "query_refines", "iter_next_refines"]],
     "oracles": ["c15"],
-    "rule": "every generated single-threaded program (edge histories with random handle provenance, all search/cycle/ordering configurations with callbacks and filters, container histories, scc, DOT, serde round trips, comparisons) is run on digraph and sync_digraph resp. ungraph and sync_ungraph; the two implementation streams are compared line by line (container-order-dependent results as sets), and each stream is compared with the model; distinct_nontrivial = number of programs.",
+    "rule": "every generated single-threaded program (edge histories with random handle provenance, all search/cycle/ordering configurations with callbacks and filters, container histories, scc, DOT, serde round trips, comparisons) is run on digraph and sync_digraph resp. ungraph and sync_ungraph; the two implementation streams are compared line by line (container-order-dependent results as sets), and each stream is compared with the model; histories with two live node objects of one key and ownership histories (the executor holds exactly the handles the program names; traversals whose closure drops the last owner) are compared between the two implementations only; distinct_nontrivial = number of programs.",
     "exhaustive": False,
     "level_text": "Machine-checked proof (Lean 4) that every lock program of the sync flavours (the four mutators with the mutation mutex, queries, the iterator step), run alone from any store, never blocks on a lock it holds itself and computes exactly the plain flavour's function (same final store, same return value), lifted to whole call sequences; the iterator step holds no lock when it returns. Traversals of the sync flavours written as lock programs (bfs/dfs search, preorder: one iterator step after the other) are proved to return, run alone, exactly what the static traversal of the plain model returns on the same lists, without blocking and without touching the store; the serialised document depends on the container's iteration order only through a permutation of its two lists. Everything else above the edge operations and the iterator step (containers, scc, serde, macros) is one model for both members of a pair. The tie to the code is a direct differential of the two implementations on every generated program (no model involved) plus the model correspondence of each; API present in only one member of a pair (Graph::with_capacity, to_dot_with_attr / sizeof of one flavour) is outside 'calls common to both'.",
     "level_note": CORR_NOTE + " The lock programs' acquisition points are validated against the real code by the C17 scheduler correspondence.",
